@@ -132,7 +132,9 @@ pub fn compare_run(report: &mut Report, sig_prefix: &str, case: &Value, real: &R
             diffs += 1;
             report.disagree(&format!("{sig_prefix}:result"), case.clone(), json!(trunc(&real.result)), json!(trunc(&model.result)));
         }
-        let mut re: Vec<String> = real.events.iter().filter(|l| l.starts_with("event error")).cloned().collect();
+        // filesystem-level restore errors (a parent directory that was never created, …) are below
+        // the store-level model; they are compared by the filesystem model (C16)
+        let mut re: Vec<String> = real.events.iter().filter(|l| l.starts_with("event error") && !l.starts_with("event error other:Restore")).cloned().collect();
         let mut me: Vec<String> = model.events.iter().filter(|l| l.starts_with("event error")).cloned().collect();
         if o.errors_unordered {
             re.sort();
